@@ -11,9 +11,12 @@ mod cases;
 mod core;
 mod findings;
 mod hashseed;
+mod net;
 mod pt;
 mod rng;
 mod ser;
+mod trk;
+mod val;
 
 use crate::cases::Case;
 use crate::core::*;
@@ -26,6 +29,10 @@ use std::time::{Duration, Instant};
 
 thread_local! {
     static LAST_PANIC: RefCell<Option<(String, String)>> = const { RefCell::new(None) };
+}
+
+pub fn take_last_panic() -> (String, String) {
+    LAST_PANIC.with(|p| p.borrow_mut().take()).unwrap_or(("?".into(), "?".into()))
 }
 
 pub fn root() -> String {
@@ -110,7 +117,7 @@ fn minimise(case: &Case, v: &Violation, budget: usize) -> (Case, Violation, usiz
     let mut cur_v = v.clone();
     let mut used = 0usize;
     'outer: loop {
-        let cands = cases::shrink(&cur);
+        let cands = cases::shrink(&cur, &cur_v);
         for c in cands {
             if used >= budget {
                 break 'outer;
